@@ -480,7 +480,7 @@ def smt_div(dividend: int, divisor: int) -> int:
     """
 
     if divisor == 0:
-        raise DomainError("Division by zero is unspecified.")
+        raise UnspecifiedValueError("Division by zero is unspecified.")
 
     return dividend // divisor if divisor > 0 else -(dividend // -divisor)
 
@@ -648,6 +648,13 @@ class DomainError(RuntimeError):
 
     def __str__(self):
         return f"DomainError({self.msg})"
+
+
+class UnspecifiedValueError(DomainError):
+    """
+    The value of a term is left open by SMT-LIB (division by zero). A formula
+    containing such a term may still be valid or unsatisfiable; Z3 has to decide.
+    """
 
 
 def is_valid(formula: z3.BoolRef, timeout: int = 500) -> ThreeValuedTruth:
